@@ -302,6 +302,15 @@ class SpaceKind(AbsInt):
 
     def binop(self, node, left, right, fr):
         op = node.op
+        covlike = ('CORR', 'COV', 'COVINV')
+        if isinstance(op, ast.MatMult) and (left in covlike or right in covlike):
+            if left in covlike and right == 'Z':
+                return 'Z'
+            return 'COV'
+        if isinstance(op, (ast.Sub, ast.Add)) and left in covlike and right in covlike:
+            return 'COV'
+        if isinstance(op, (ast.Sub, ast.Add)) and 'ZERO' in (left, right):
+            return right if left == 'ZERO' else left
         if isinstance(op, ast.Sub):
             if isinstance(left, tuple) and left == ('num', 1) and right == 'EPS':
                 return '1-EPS'
@@ -330,7 +339,7 @@ class SpaceKind(AbsInt):
         return base if isinstance(base, str) else TOP
 
     def attribute(self, node, base, fr):
-        if node.attr in ('values', 'T', 'real'):
+        if node.attr in ('values', 'T', 'real', 'loc', 'iloc'):
             return base
         return TOP
 
@@ -434,6 +443,17 @@ class SpaceKind(AbsInt):
             if isinstance(c, str) and c not in ('CORR', 'COV'):
                 self.mismatches.append((node, fr.fn, f'multivariate normal draw with covariance of kind {c}'))
             return 'Z'
+        if name == 'numpy.random.normal':
+            sc = kwarg(node, 'scale', 1)
+            k = self.value(sc, fr) if sc is not None else ('num', 1)
+            if k in ('CORR', 'COV'):
+                self.mismatches.append((node, fr.fn, 'np.random.normal(loc, scale): scale is a standard deviation but receives an '
+                                        'element of a covariance matrix (a variance)'))
+            return 'Z'
+        if name == 'numpy.linalg.inv' and args:
+            return 'COVINV' if self.value(args[0], fr) in ('CORR', 'COV') else TOP
+        if name == 'numpy.sqrt' and args:
+            return 'SD' if self.value(args[0], fr) in ('CORR', 'COV') else TOP
         if name == 'numpy.random.uniform':
             lo = self.value(kwarg(node, 'low', 0), fr) if kwarg(node, 'low', 0) is not None else ('num', 0)
             hi = self.value(kwarg(node, 'high', 1), fr) if kwarg(node, 'high', 1) is not None else ('num', 1)
